@@ -112,12 +112,13 @@ def intersectionInfo (s : Sphere α) (ray : Ray α) (phit : V3 α) (phi : α) : 
   let hitX := phit.x
   let hitY := phit.y
   let hitZ := phit.z
+  let zrad := Num.sqrt (phit.x * phit.x + phit.y * phit.y)
+  let invZrad := (1 : α) / zrad
   let cosTheta := clamp (hitZ / s.radius) (-1 : α) (1 : α)
   let theta := Num.acos cosTheta
   let sinTheta := Num.sin theta
-  let oneOverRSinTheta := (1 : α) / s.radius / sinTheta
-  let cosPhi := hitX * oneOverRSinTheta
-  let sinPhi := hitY * oneOverRSinTheta
+  let cosPhi := hitX * invZrad
+  let sinPhi := hitY * invZrad
   let u := phi / s.phiMax
   let v := (theta - s.thetaMin) / s.deltaTheta
   let dpdu : V3 α := ⟨-s.phiMax * hitY, s.phiMax * hitX, 0⟩
